@@ -127,6 +127,49 @@ def contains_carried(v, name):
     return any(isinstance(x, tuple) and x and x[0] == "carried" and x[1] == name for x in walk(v))
 
 
+_NEQ = ("n_eqns",)
+
+
+def _npoly(m, v):
+    """integer polynomial normal form (odemodel.poly) with every spelling of n_eqns as one atom"""
+    from ..odemodel import poly
+    out = {}
+    for k, c in poly(v).items():
+        k2 = tuple(sorted((_NEQ if (a == _NEQ or m.is_n_eqns(a)) else a for a in k), key=repr))
+        out[k2] = out.get(k2, 0) + c
+    return {k: c for k, c in out.items() if c}
+
+
+def _row_origin(m, lp):
+    """The row loop of the CSR scan by what it enumerates: -> (flat position of the row's first entry, every row visited once in
+    ascending order?, description) or None when the loop is not understood.
+       for row in range(N)                     first entry row * N          complete iff N is n_eqns
+       for start in range(0, N * N, N)         first entry start            complete iff N is n_eqns
+       for x in [g(row) for row in range(N)]   as the first form (the loop variable is g(row): a row slice cut by a helper, ..)"""
+    from ..valueflow import as_map
+    it = simp(lp.iter)
+    desc = show(it)
+    if it[0] == "comp":
+        mm = as_map(it)
+        if mm is None:
+            return None
+        if mm[3]:
+            return (("const", 0), False, "a filtered sequence of rows: " + desc)
+        it = simp(mm[2])
+    if not (it[0] == "call" and it[1] == ("global", "range") and not it[3]):
+        return None
+    var = ("elem", it, lp.id)
+    a = it[2]
+    if len(a) == 1:
+        return (("binop", "Mult", var, a[0]), m.is_n_eqns(a[0]), desc)
+    if len(a) == 3:
+        ok = a[0] == ("const", 0) and m.is_n_eqns(a[2]) and _npoly(m, a[1]) == {(_NEQ, _NEQ): 1}
+        return (var, ok, desc)
+    if len(a) == 2:
+        return (("binop", "Mult", var, a[1]), a[0] == ("const", 0) and m.is_n_eqns(a[1]), desc)
+    return None
+
+
 def _r1(ctx, m):
     fl = m.flow
     W = (FILE, m.func.lineno)
@@ -185,9 +228,11 @@ def _r1(ctx, m):
     # the scan: `for row in range(n): for col in range(n): entry = table[row*n + col]`  or
     #           `for row in range(n): for col, entry in enumerate(table[row*n : (row+1)*n])`
     form = None
+    origin = None
     if len(scan) == 2:
-        it0, it1 = simp(scan[0].iter), simp(scan[1].iter)
-        if it0[0] == "call" and it0[1] == ("global", "range"):
+        origin = _row_origin(m, scan[0])
+        it1 = simp(scan[1].iter)
+        if origin is not None:
             if it1[0] == "call" and it1[1] == ("global", "range"):
                 form = "range"
             elif it1[0] == "call" and it1[1] == ("global", "enumerate") and len(it1[2]) == 1 and not it1[3] and it1[2][0][0] == "sub" \
@@ -221,11 +266,9 @@ def _r1(ctx, m):
             ctx.unrec("R1", "csr-construction", W, "CSR builder is not the row loop x column loop form; cannot decide well-formedness")
         return
     rowloop, colloop = scan
-    rowvar = ("elem", simp(rowloop.iter), rowloop.id)
-    it = simp(rowloop.iter)
-    ok = len(it[2]) == 1 and not it[3] and m.is_n_eqns(it[2][0])
-    ctx.check(ok, "R1", "row-loop", (FILE, rowloop.line), f"row loop is `for {rowloop.target} in range(n_eqns)` (ascending, complete)",
-              expected="range(n_eqns)", found=show(it)[:100])
+    rowstart, complete, found_rows = origin
+    ctx.check(complete, "R1", "row-loop", (FILE, rowloop.line), f"the row loop `for {rowloop.target} in ..` visits every row 0 .. n_eqns-1 once, ascending",
+              expected="range(n_eqns)  /  range(0, n_eqns*n_eqns, n_eqns)  /  one item per element of range(n_eqns)", found=found_rows[:100])
     it = simp(colloop.iter)
     if form == "range":
         ok = len(it[2]) == 1 and not it[3] and m.is_n_eqns(it[2][0])
@@ -234,9 +277,10 @@ def _r1(ctx, m):
         colvar = ("elem", it, colloop.id)
         entry = None            # from the guard, below
     else:
-        from ..odemodel import row_slice
         seq = it[2][0]
-        ok = row_slice(m, seq[2], rowvar)
+        sl = seq[2]
+        lo = {} if sl[1] == ("const", None) else _npoly(m, sl[1])
+        ok = sl[3] == ("const", None) and sl[2] != ("const", None) and lo == _npoly(m, rowstart) and _npoly(m, sl[2]) == _npoly(m, ("binop", "Add", rowstart, _NEQ))
         ctx.check(bool(ok), "R1", "col-loop", (FILE, colloop.line),
                   f"col loop enumerates the row's slice jacrhs[row*n_eqns : (row+1)*n_eqns] (ascending, complete; position in the slice = column)",
                   expected="enumerate(jacrhs[row*n_eqns : (row+1)*n_eqns])", found=show(it)[:120])
@@ -284,8 +328,7 @@ def _r1(ctx, m):
               found="; ".join("&".join(("" if p else "not ") + show(x)[:60] for x, p in gg) or "<unguarded>" for gg in g))
     if guard_ok:
         if form == "range":
-            d = m.decode_flat(slot_idx)
-            ok = bool(d) and d[0] == rowvar and d[1] == colvar
+            ok = _npoly(m, slot_idx) == _npoly(m, ("binop", "Add", rowstart, colvar))
             ctx.check(ok, "R1", "entry-index", (FILE, c.line), "the tested entry is jacrhs[row*n_eqns + col] of the two loop variables",
                       found=show(slot_idx)[:120])
         else:
@@ -346,7 +389,9 @@ def _r2_r5(ctx, m, tsent=()):
     # pattern writer
     fn = pkg.method("TemplateLoader", "render")
     ctx.saw(FILE, "TemplateLoader.render")
-    rf = Flow(fn, FILE)
+    # a helper method that returns the text / the rows / the marks is read as the value it returns
+    from ..odemodel import pure_helper_resolver
+    rf = Flow(fn, FILE, resolver=pure_helper_resolver(pkg, "TemplateLoader"))
     _pattern_writer(ctx, rf, fn, sent)
     # R2 verdict
     W = (FILE, m.func.lineno)
